@@ -114,11 +114,16 @@ def extract(repo):
             out += "Definition signargs_%s : list farg :=\n  [%s].\n\n" % (fn, "; ".join(arg_term(x) for x in a))
         # strftime formats
         sf = re.findall(r"strftime\s*\(\s*(\w+)\s*,\s*(\d+)\s*,\s*(%s)" % STR, body)
+        # which broken-down-time function feeds each strftime (must be gmtime_r for UTC)
+        tf = re.findall(r"strftime\s*\([^;]*?,\s*(\w+)\s*\(\s*&\s*t_now\s*,", body, flags=re.S)
         if fn != "aws_sign":
             if len(sf) != 2:
                 raise NotFound("two strftime calls in " + fn)
             out += "Definition strftime_%s : list (list N * N * list N) :=\n  [%s].\n\n" % (
                 fn, "; ".join("(%s, %s%%N, %s)" % (coq_name(d), n, coq_bytes(concat_literals(lit))) for d, n, lit, _ in sf))
+            if len(tf) != 2:
+                raise NotFound("broken-down-time function of the two strftime calls in " + fn)
+            out += "Definition timefns_%s : list (list N) :=\n  [%s].\n\n" % (fn, "; ".join(coq_name(x) for x in tf))
             nt = len(re.findall(r"\btime\s*\(", body))
             out += "Definition time_calls_%s : N := %d%%N.\n\n" % (fn, nt)
     # key-derivation chain in aws_sign: HMAC_SHA256_Buf(key, keylen, data, datalen, out)
